@@ -6,7 +6,7 @@ Per-iteration evaluation budget: for every optimizer, the objective call sites r
 Pure `ast`; nothing is imported from the repo.
 """
 import inline
-import ast, os, struct
+import ast, copy, os, struct
 
 REPO = os.environ.get('VERIF_REPO', '/repo')
 
@@ -1805,4 +1805,233 @@ def gen_loops():
                                'theorem hyperInit_eq : hyperInit = Expected.hyperInit := by decide +kernel',
                                'end Opy.Gen', ''])
     data['init'] = dict(rows)
+    return texts, data
+
+
+# ------------------------------------------------------------------ GP._mutation / GP._crossover (population loops)
+class _Subst(ast.NodeTransformer):
+    def __init__(self, alias):
+        self.alias = alias
+
+    def visit_Name(self, n):
+        if isinstance(n.ctx, ast.Load) and n.id in self.alias:
+            return copy.deepcopy(self.alias[n.id])
+        return n
+
+
+def _canon(e, alias):
+    """the expression with every local temporary replaced by what it was assigned (pure reads only)"""
+    return ' '.join(ast.unparse(_Subst(alias).visit(copy.deepcopy(e))).split())
+
+
+def _gt_one(test, alias):
+    """-> (size expression compared, positive?) for `n > 1`, `1 < n`, `n >= 2`, and the negations `n <= 1`, `n < 2`, `not (...)`"""
+    if isinstance(test, ast.UnaryOp) and isinstance(test.op, ast.Not):
+        r = _gt_one(test.operand, alias)
+        return (r[0], not r[1]) if r else None
+    if isinstance(test, ast.Compare) and len(test.ops) == 1:
+        l, op, r = test.left, test.ops[0], test.comparators[0]
+        cl, cr = _canon(l, alias), _canon(r, alias)
+        if isinstance(op, ast.Gt) and cr == '1':
+            return cl, True
+        if isinstance(op, ast.Lt) and cl == '1':
+            return cr, True
+        if isinstance(op, ast.GtE) and cr == '2':
+            return cl, True
+        if isinstance(op, ast.LtE) and cl == '2':
+            return cr, True
+        if isinstance(op, ast.LtE) and cr == '1':
+            return cl, False
+        if isinstance(op, ast.GtE) and cl == '1':
+            return cr, False
+        if isinstance(op, ast.Lt) and cr == '2':
+            return cl, False
+        if isinstance(op, ast.Gt) and cl == '2':
+            return cr, False
+    return None
+
+
+def _pop_prelude(stmts, pname, F, even=False):
+    """fitness list, count (optionally rounded up to even), tournament call, the loop -> loop or None"""
+    fitness = count = selected = None
+    loop = None
+    for st in stmts:
+        tgt = st.targets[0].id if isinstance(st, ast.Assign) and len(st.targets) == 1 and isinstance(st.targets[0], ast.Name) else None
+        v = getattr(st, 'value', None)
+        if tgt and isinstance(v, ast.ListComp) and len(v.generators) == 1 and not v.generators[0].ifs \
+                and isinstance(v.generators[0].target, ast.Name) and ast.unparse(v.generators[0].iter) == 'space.agents' \
+                and ast.unparse(v.elt) == v.generators[0].target.id + '.fit' and fitness is None:
+            fitness = tgt
+            F['fitnessFromAgents'] = True
+        elif tgt and ast.unparse(v) == f'int(space.n_trees * self.{pname})' and count is None:
+            count = tgt
+            F['countIsTreesTimesP'] = True
+        elif even and count and selected is None and not F['roundedUpToEven'] and _rounds_up(st, count):
+            F['roundedUpToEven'] = True
+        elif tgt and fitness and count and ast.unparse(v) == f'g.tournament_selection({fitness}, {count})' and selected is None:
+            selected = tgt
+            F['selectionIsTournament'] = True
+        elif isinstance(st, ast.For) and selected and loop is None and not st.orelse:
+            loop = st
+            loop._selected = selected
+        else:
+            F['extraStmts'] += 1
+    return loop
+
+
+def _rounds_up(st, count):
+    u = ' '.join(ast.unparse(st).split())
+    forms = [f'if {count} % 2 != 0: {count} += 1', f'if {count} % 2 == 1: {count} += 1', f'if {count} % 2: {count} += 1',
+             f'{count} += {count} % 2', f'{count} = {count} + {count} % 2', f'if {count} % 2 != 0: {count} = {count} + 1']
+    return u.replace('\n', ' ') in forms or ' '.join(u.split()) in forms
+
+
+def _show(F):
+    b = lambda v: 'true' if v else 'false'
+    return '{ ' + ', '.join(f'{k} := {b(v) if isinstance(v, bool) else v}' for k, v in F.items()) + ' }'
+
+
+def read_mutation(fn):
+    F = dict(fitnessFromAgents=False, countIsTreesTimesP=False, selectionIsTournament=False, sizeOfSelected=False,
+             guardMoreThanOne=False, pruned=False, mutateIntoSlot=False, growIntoSlot=False, extraStmts=0)
+    if fn is None:
+        F['extraStmts'] = 1
+        return _show(F)
+    stmts = [s for s in body_of(fn) if not (isinstance(s, ast.Expr) and isinstance(s.value, ast.Call) and ast.unparse(s.value.func).startswith('logger.'))]
+    loop = _pop_prelude(stmts, 'p_mutation', F)
+    if loop is None or not isinstance(loop.target, ast.Name) or ast.unparse(loop.iter) != loop._selected:
+        F['extraStmts'] += 1
+        return _show(F)
+    s_ = loop.target.id
+    slot = f'space.trees[{s_}]'
+    size = f'{slot}.n_nodes'
+    alias = {}
+
+    def block(stmts_, which):
+        """a branch of the guard: temporaries, then the slot assignment"""
+        done = False
+        for st in stmts_:
+            if isinstance(st, ast.Assign) and len(st.targets) == 1 and isinstance(st.targets[0], ast.Name) and not done:
+                alias[st.targets[0].id] = _Subst(alias).visit(copy.deepcopy(st.value))
+                continue
+            if isinstance(st, ast.Assign) and len(st.targets) == 1 and ast.unparse(st.targets[0]) == slot and not done:
+                c = _canon(st.value, alias)
+                if which == 'mutate' and c == f'self._mutate(space, {slot}, self._prune_nodes({size}))':
+                    F['mutateIntoSlot'] = True
+                    F['pruned'] = True
+                    done = True
+                    continue
+                if which == 'mutate' and c.startswith(f'self._mutate(space, {slot}, ') and c.endswith(')'):
+                    F['mutateIntoSlot'] = True      # … but the bound handed over is not the pruned size
+                    done = True
+                    continue
+                if which == 'grow' and c == 'space.grow(space.min_depth, space.max_depth)':
+                    F['growIntoSlot'] = True
+                    done = True
+                    continue
+            F['extraStmts'] += 1
+    guard = None
+    for st in body_of(loop):
+        if isinstance(st, ast.Assign) and len(st.targets) == 1 and isinstance(st.targets[0], ast.Name) and guard is None:
+            alias[st.targets[0].id] = _Subst(alias).visit(copy.deepcopy(st.value))
+            continue
+        if isinstance(st, ast.If) and guard is None:
+            guard = st
+            g_ = _gt_one(st.test, alias)
+            if g_ and g_[0] == size:
+                F['sizeOfSelected'] = True
+                F['guardMoreThanOne'] = True
+                pos, neg = (st.body, st.orelse) if g_[1] else (st.orelse, st.body)
+                block(pos, 'mutate')
+                block(neg, 'grow')
+            else:
+                F['extraStmts'] += 1
+            continue
+        F['extraStmts'] += 1
+    return _show(F)
+
+
+def read_crossover(fn):
+    F = dict(fitnessFromAgents=False, countIsTreesTimesP=False, roundedUpToEven=False, selectionIsTournament=False,
+             loopOverPairs=False, sizesOfPair=False, guardBothMoreThanOne=False, prunedBoth=False, crossIntoSlots=False, extraStmts=0)
+    if fn is None:
+        F['extraStmts'] = 1
+        return _show(F)
+    stmts = [s for s in body_of(fn) if not (isinstance(s, ast.Expr) and isinstance(s.value, ast.Call) and ast.unparse(s.value.func).startswith('logger.'))]
+    loop = _pop_prelude(stmts, 'p_crossover', F, even=True)
+    if loop is None or ast.unparse(loop.iter) != f'g.pairwise({loop._selected})':
+        F['extraStmts'] += 1
+        return _show(F)
+    alias = {}
+    if isinstance(loop.target, ast.Name):
+        a_, b_ = f'{loop.target.id}[0]', f'{loop.target.id}[1]'
+    elif isinstance(loop.target, ast.Tuple) and len(loop.target.elts) == 2 and all(isinstance(e, ast.Name) for e in loop.target.elts):
+        a_, b_ = loop.target.elts[0].id, loop.target.elts[1].id
+    else:
+        F['extraStmts'] += 1
+        return _show(F)
+    F['loopOverPairs'] = True
+    sa, sb = f'space.trees[{a_}]', f'space.trees[{b_}]'
+    na, nb = f'{sa}.n_nodes', f'{sb}.n_nodes'
+    want = f'self._cross({sa}, {sb}, self._prune_nodes({na}), self._prune_nodes({nb}))'
+    guard = None
+    for st in body_of(loop):
+        if isinstance(st, ast.Assign) and len(st.targets) == 1 and isinstance(st.targets[0], ast.Name) and guard is None:
+            alias[st.targets[0].id] = _Subst(alias).visit(copy.deepcopy(st.value))
+            continue
+        if isinstance(st, ast.If) and guard is None and not st.orelse:
+            guard = st
+            t = st.test
+            ok = False
+            if isinstance(t, ast.BoolOp) and isinstance(t.op, ast.And) and len(t.values) == 2:
+                g1, g2 = _gt_one(t.values[0], alias), _gt_one(t.values[1], alias)
+                ok = bool(g1 and g2 and g1[1] and g2[1] and {g1[0], g2[0]} == {na, nb})
+            if not ok:
+                F['extraStmts'] += 1
+                continue
+            F['sizesOfPair'] = True
+            F['guardBothMoreThanOne'] = True
+            done = False
+            pending = None
+            for s2 in st.body:
+                if isinstance(s2, ast.Assign) and len(s2.targets) == 1 and isinstance(s2.targets[0], ast.Name) and not done:
+                    alias[s2.targets[0].id] = _Subst(alias).visit(copy.deepcopy(s2.value))
+                    continue
+                if isinstance(s2, ast.Assign) and len(s2.targets) == 1 and isinstance(s2.targets[0], ast.Tuple) and not done \
+                        and ast.unparse(s2.targets[0]) == f'({sa}, {sb})':
+                    c = _canon(s2.value, alias)
+                    if c == want:
+                        F['crossIntoSlots'] = True
+                        F['prunedBoth'] = True
+                        done = True
+                        continue
+                    if c.startswith(f'self._cross({sa}, {sb}, ') and c.endswith(')'):
+                        F['crossIntoSlots'] = True
+                        done = True
+                        continue
+                F['extraStmts'] += 1
+            continue
+        F['extraStmts'] += 1
+    return _show(F)
+
+
+_old_gen_loops13 = gen_loops
+
+
+def gen_loops():
+    texts, data = _old_gen_loops13()
+    gp = f'{REPO}/opytimizer/optimizers/gp.py'
+    mu = read_mutation(find_method(gp, 'GP', '_mutation'))
+    cr = read_crossover(find_method(gp, 'GP', '_crossover'))
+    texts['PopLoopsDefs'] = '\n'.join(['-- GENERATED by harness/translate_loops.py from GP._mutation and GP._crossover. Do not edit.',
+                                       'import OpyVerif.Model.PopLoops', 'namespace Opy.Gen', 'open Opy', '',
+                                       f'def mutLoop : MutLoop := {mu}', f'def crossLoop : CrossLoop := {cr}', '', 'end Opy.Gen', ''])
+    texts['PopLoops'] = '\n'.join(['-- GENERATED by harness/translate_loops.py: obligations re-decided on every build. Do not edit.',
+                                   'import OpyVerif.Generated.PopLoopsDefs', 'namespace Opy.Gen', 'open Opy',
+                                   '/-- `GP._mutation` reads as the loop `Proofs/PopLoops.mutLoop_popOK` is about -/',
+                                   'theorem mutLoop_eq : mutLoop = Expected.mutLoop := by decide +kernel',
+                                   '/-- `GP._crossover` reads as the loop `Proofs/PopLoops.crossLoop_popOK` is about -/',
+                                   'theorem crossLoop_eq : crossLoop = Expected.crossLoop := by decide +kernel',
+                                   'end Opy.Gen', ''])
+    data['popLoops'] = dict(mutation=mu, crossover=cr)
     return texts, data
